@@ -75,6 +75,9 @@ def gen_cases(tier, seed):
     for L in (1, 2, 3):
         for seq in itertools.product(('FB', 'FF'), repeat=L):
             cases.append(dict(part='rerun', seq=list(seq), poke=False))
+    # the same measurement and model objects under alternating altitude modes ('2' = with_altitude=False)
+    for seq in (['FB', 'FB2', 'FB'], ['FF2', 'FF', 'FF2'], ['FB2', 'FF', 'FB'], ['FF', 'FB2']):
+        cases.append(dict(part='rerun', seq=seq, poke=False))
     cases.append(dict(part='rerun', seq=['FB', 'FB'], poke=True))
     cases.append(dict(part='rerun', seq=['FF', 'FB'], poke=True))
     return cases
@@ -270,14 +273,19 @@ def run_rerun(case):
         return (isn.EstimationModel(bias_sd=2e-3, noise=1e-5, scale_misal_sd=1e-2, bias_walk=1e-6),
                 isn.EstimationModel(bias_sd=0.1, noise=1e-3))
 
-    def call(kind, gm, am):
-        if kind == 'FB':
-            return filters.run_feedback_filter(init, 5, 0.2, 0.2, 0.5, inc, gm, am, measurements=[pos, vel],
-                                               time_step=0.5)
-        return filters.run_feedforward_filter(tc, tc, 5, 0.2, 0.2, 0.5, gm, am, measurements=[pos, vel],
-                                              increments=inc, time_step=0.5)
+    def call(kind, gm, am, ms=None):
+        ms = [pos, vel] if ms is None else ms
+        wa = not kind.endswith('2')
+        if kind.startswith('FB'):
+            return filters.run_feedback_filter(init, 5, 0.2, 0.2, 0.5, inc, gm, am, measurements=ms,
+                                               time_step=0.5, with_altitude=wa)
+        return filters.run_feedforward_filter(tc, tc, 5, 0.2, 0.2, 0.5, gm, am, measurements=ms,
+                                              increments=inc, time_step=0.5, with_altitude=wa)
 
-    fresh = {k: tables_bytes(call(k, *models())) for k in set(case['seq'])}
+    def fresh_meas():
+        return [measurements.Position(pos.data.copy(), 1.0), measurements.NedVelocity(vel.data.copy(), 0.1)]
+
+    fresh = {k: tables_bytes(call(k, *models(), ms=fresh_meas())) for k in set(case['seq'])}
     gm, am = models()
     for i, kind in enumerate(case['seq']):
         if case['poke'] and i > 0:
